@@ -597,7 +597,7 @@ func loadersUnit() harness.Unit {
 var Prop = &harness.Prop{
 	ID:          "C14",
 	Level:       "exploration",
-	Rule:        "full product of the key alphabet (12 shared keys + d with 1/3 leading zero bytes, odd hex digit counts, [thorough] Px with two leading zero bytes) x every codec pair (hex private/public, compressed point, PKIX DER/PEM, generic PKIX, PKCS#8 DER/PEM x passwords {nil, empty, ASCII, UTF-8, 1 KiB}) with field-by-field comparison; every wrong-password variant (one character, case, length +-1, empty) must be refused; (r,s) over 8 boundary values squared; ASN.1 ciphertext with 0..5 leading zero bytes in each coordinate; every (certificate, key) pair over 3 SM2 + RSA + P-256 identities for each TLS loader: accepted iff matching. Distinct/non-trivial = distinct (value, codec) labels.",
+	Rule:        "full product of the key alphabet (12 shared keys + d with 1/3 leading zero bytes, odd hex digit counts, [thorough] Px with two leading zero bytes) x every codec pair (hex private/public, compressed point, PKIX DER/PEM, generic PKIX, PKCS#8 DER/PEM x passwords {nil, empty, ASCII, UTF-8, 1 KiB}) with field-by-field comparison; every wrong-password variant (one character, case, length +-1, empty) must be refused; (r,s) over 8 boundary values squared; ASN.1 ciphertext with 0..5 leading zero bytes in each coordinate; every (certificate, key) pair over 3 SM2 + RSA + P-256 identities for each TLS loader: accepted iff matching. Distinct/non-trivial = distinct (value, codec) labels. The loader matrix includes the negation n-d of the first key (same x coordinate as the certificate's key).",
 	Assumptions: []string{"refsm2 computes the public points; salts/IVs of the encrypted PKCS#8 come from crypto/rand inside the library (not observed by the property)"},
 	Bounds: func(tier string) string {
 		return "complete for the stated alphabets; thorough adds the searched Px-with-two-leading-zero-bytes key"
